@@ -87,6 +87,9 @@ def run(ctx):
     # R18.3
     ar.compat_checks_rule(ctx, 'R18.3')
     ar.index_normalisation_rule(ctx, 'R18.3b')
+    from . import c01 as _c01, c08 as _c08
+    _c01.r124(ctx, 'R18.6')
+    _c08.r81(ctx, ctx.repo['writer'])
     from . import findings2 as _f2
     _f2.destructive_order(ctx, 'R18.5')
     ar.mode_params_rule(ctx, 'R18.3c')
